@@ -3,6 +3,6 @@ CONSTANTS Nodes <- MCNodes
           AddrOf <- MCAddrOf
           AmRelay <- MCAmRelay
           MaxRecs = 2
-INVARIANTS OnlyRelaysForward RecordsOnLiveTunnels NotToSelf IndexesUnique
+INVARIANTS OnlyRelaysForward RecordsOnLiveTunnels NotToSelf IndexesUnique IndexesOwned
 CONSTRAINT Bound
 CHECK_DEADLOCK FALSE
